@@ -19,8 +19,16 @@ SENSE_INIT = "pyscsi.pyscsi.scsi_sense:SCSICheckCondition.__init__"
 def sense_stub(I, f, locs, node, frame):
     inst = locs.get("self")
     if isinstance(inst, Instance):
-        inst.attrs["__sense_arg__"] = locs.get("sense")
+        params = [a.arg for a in f.node.args.args]
+        inst.attrs["__sense_arg__"] = locs.get(params[1] if len(params) > 1 else "sense")     # what the error is built from
     return None
+
+
+def sense_init_name(prog):
+    """the constructor a CheckCondition error is built through, in whichever class of its hierarchy it is written"""
+    cls = prog.cls("pyscsi.pyscsi.scsi_sense", "SCSICheckCondition")
+    init = cls.lookup("__init__")[0]
+    return init.qualname if isinstance(init, FuncVal) else SENSE_INIT
 
 
 def believed_missing(fn):
@@ -48,12 +56,13 @@ def sense_less_outcome(prog):
     """what building the CheckCondition error from 'no sense data' (None) does: None if it can be built, else the error"""
     I = prog.I
     cls = prog.cls("pyscsi.pyscsi.scsi_sense", "SCSICheckCondition")
-    saved = I.stubs.pop(SENSE_INIT, None)
+    key = sense_init_name(prog)
+    saved = I.stubs.pop(key, None)
     try:
         ps = I.explore(lambda: I.instantiate(cls, [None], {}, None, _F()), max_paths=8)
     finally:
         if saved is not None:
-            I.stubs[SENSE_INIT] = saved
+            I.stubs[key] = saved
     bad = [p for p in ps if not p.returned]
     return bad[0].raised.describe() if bad else None
 
@@ -98,7 +107,8 @@ def check(prog, run):
     run.rule_text = "one obligation per (transport, raw-sense flag, path) and per (facade method, set, path with a fault)"
     run.trusted += ["spec/transports.py", "stand-in model: sgio raises CheckConditionError with .sense; libiscsi Task has .status/.raw_sense"]
     run.assumptions += ["cython-sgio raises for every non-GOOD completion (its own behaviour is not decided)"]
-    I.stubs[SENSE_INIT] = sense_stub
+    key = sense_init_name(prog)
+    I.stubs[key] = sense_stub
     try:
         check_classes(prog, run)
         check_sgio(prog, run)
@@ -106,7 +116,7 @@ def check(prog, run):
         check_facade(prog, run)
         check_with_block(prog, run)
     finally:
-        I.stubs.pop(SENSE_INIT, None)
+        I.stubs.pop(key, None)
 
 
 def check_with_block(prog, run):
